@@ -17,6 +17,67 @@ theorem print_framing (o : Opts) (r : Route) (fmt : Bytes → Bytes) (v : V) :
   · next s h => exact ⟨_, rfl, Or.inr ⟨h, s, rfl, rfl⟩⟩
   · exact ⟨_, rfl, Or.inl rfl⟩
 
+theorem spaces_ws (n : Nat) : (spaces n).all isWs = true := by
+  induction n with
+  | zero => rfl
+  | succ n ih => simpa [spaces, isWs] using ih
+
+/-- `print_read`. For every value, every option set and every printing route, the reference
+RFC 8259 reader (any whitespace in gaps, strict strings, duplicates kept) applied to the JSON text
+the printer writes returns `canon o r fmt v`: the value after the route's preparation (duplicate keys
+collapsed — first position, last value — unless `--preserve-input` on the cursor route; keys sorted
+iff `-S`), with number tokens re-spelled by the route's `fmt` and spelling bits forgotten.
+Hypotheses: `fmt` maps RFC 8259 number tokens to RFC 8259 number tokens (that it preserves the
+*value* is property C10's theorem; the driver checks "same double" on every number of every
+request), and the prepared value is well-formed (`prep_wf` below discharges this from `v.wf`
+for the materialised/owned routes… see `wf` there). Trailing whitespace / the newline terminator is
+covered by `w`. -/
+theorem print_read (o : Opts) (r : Route) (fmt : Bytes → Bytes)
+    (hfmt : ∀ l, validNum l = true → validNum (fmt l) = true)
+    (v : V) (hv : (o.prep r v).wf = true) (w : Bytes) (hw : w.all isWs = true) :
+    read (body o r fmt v ++ w) = .ok (canon o r fmt v) := by
+  unfold body canon
+  apply read_render
+  · -- the indent unit is whitespace for every option set
+    have hu : o.unit.all isWs = true := by
+      unfold Opts.unit
+      split
+      · decide
+      · split
+        · exact spaces_ws _
+        · split <;> decide
+    cases r <;> simpa [Opts.cfg] using hu
+  · intro l hl
+    cases r <;> simp only [Opts.cfg] <;> first | exact hfmt l hl | (split <;> first | exact hl | exact hfmt l hl)
+  · exact hv
+  · exact hw
+
+/-- the output as framed on stdout (newline terminator) reads back: `print` for the default framing -/
+theorem print_read_line (o : Opts) (r : Route) (fmt : Bytes → Bytes)
+    (hfmt : ∀ l, validNum l = true → validNum (fmt l) = true)
+    (v : V) (hv : (o.prep r v).wf = true) :
+    read (body o r fmt v ++ [0x0a]) = .ok (canon o r fmt v) :=
+  print_read o r fmt hfmt v hv [0x0a] (by decide)
+
+/-- the identity fast path echoes the input span and a newline: whatever the span reads as, the
+output reads as (trailing whitespace is insignificant) — stated for spans that are printer images,
+the general statement needs locality of the reader and is not proved. -/
+theorem print_fast_read_partial (c : Cfg) (hu : c.unit.all isWs = true) (hf : FmtOK c) (v : V) (hv : v.wf = true) :
+    read (printFast (render c 0 v)) = read (render c 0 v) := by
+  unfold printFast
+  rw [read_render c hu hf v hv 0 [0x0a] (by decide)]
+  have := read_render c hu hf v hv 0 [] (by decide)
+  simpa using this.symm
+
+/-- non-vacuity: an object with a duplicate key, an escape and a number, pretty-printed with tabs -/
+example :
+    let v : V := .obj [(⟨['a'], false⟩, .num [0x31]), (⟨['b', '\n'], true⟩, .arr [.null]), (⟨['a'], false⟩, .bool true)]
+    let show' : V → Bytes := render { compact := true, unit := [], ascii := true, fmt := id } 0
+    (match read (body { tab := true } .cursor id v) with
+      | .ok w => some (show' w)
+      | .error _ => none) = some (show' (canon { tab := true } .cursor id v)) := by
+  decide +kernel
+
 example : print { seq := true, compact := true } .mat id (.arr [.null]) = [0x1e, 0x5b, 0x6e, 0x75, 0x6c, 0x6c, 0x5d, 0x0a] := by
   decide
 
